@@ -20,6 +20,8 @@ for prop in sys.argv[1:]:
     errs = [f["qual"] for f in out["functions"] if f["error"]]
     b = dict(functions={f["qual"]: f["eff_sha"] for f in out["functions"] if not f["error"]},
              discharged=sorted(o["name"] for o in out["obligations"] if o["kind"] != "cover" and o["verdict"] == "unsat"),
-             not_discharged=sorted(bad))
+             not_discharged=sorted(bad),
+             backends={o["name"]: [o["backend"], o["time"]] for o in out["obligations"]
+                       if o["kind"] != "cover" and o["verdict"] == "unsat" and o["time"] > 1.0})
     json.dump(b, open(os.path.join(ROOT, "specs", "baseline", prop + ".json"), "w"), indent=1)
     print(prop, "functions", len(b["functions"]), "discharged", len(b["discharged"]), "not discharged", bad, "errors", errs)
